@@ -255,10 +255,15 @@ fn describe(r: &Resolve, wid: WorldId) -> String {
                 WorldItem::Interface { id, .. } => {
                     let fs: Vec<String> =
                         r.interfaces[*id].functions.values().map(|f| func(r, Some(k), f, exported)).collect();
+                    let owner_key = match r.id_of(*id) {
+                        Some(s) => s,
+                        None => format!("#iface{}", id.index()),
+                    };
                     items.push(format!(
-                        "{{\"dir\":\"{}\",\"iface\":{},\"id_key\":{},\"funcs\":[{}],\"resources\":{}}}",
+                        "{{\"dir\":\"{}\",\"iface\":{},\"owner_key\":{},\"id_key\":{},\"funcs\":[{}],\"resources\":{}}}",
                         if exported { "export" } else { "import" },
                         js(&r.name_world_key(k)),
+                        js(&owner_key),
                         matches!(k, WorldKey::Interface(_)),
                         fs.join(","),
                         resources(r, k, *id, exported)
